@@ -1,7 +1,7 @@
 (* Properties/C17.v — Ticks are few enough, nice, ascending, inside the domain; Nice only expands.
    ONLY statements; each is closed by [exact] of a lemma from Proofs/Ticks*.v. *)
 From Coq Require Import Sorted.
-From MM Require Import Base.Num Model.Ticks Proofs.Ticks Proofs.TicksLinear Proofs.TicksLog.
+From MM Require Import Base.Num Model.Ticks Proofs.Ticks Proofs.TicksLinear Proofs.TicksLog Check.C17 Proofs.TicksCheck.
 Local Open Scope Z_scope.
 
 (* ================= FindLevel (ticks.go:56-101) ================= *)
@@ -211,3 +211,19 @@ Example C17_log_example :
   log_nice 10 3 20000 (mkOpts 1 0 0) = (3%Q, 20000%Q).
 Proof. vm_compute. repeat split; reflexivity. Qed.
 End Log.
+
+(* ================= the check decides the model ================= *)
+(* Check/C17.v runs the level search on capped count functions (so that a search that climbs
+   to level 1000 stays cheap); they are extensionally equal to the model's counts, hence the
+   check evaluates exactly lin_ticks, lin_nice, log_ticks and log_nice *)
+Theorem C17_check_runs_the_model : forall base b mn mx o g,
+  lin_ticks_gen lin_count_capped base mn mx o g = lin_ticks base mn mx o g /\
+  lin_nice_gen lin_count_capped base mn mx o g = lin_nice base mn mx o g /\
+  log_ticks_gen log_count_capped b mn mx o = log_ticks b mn mx o /\
+  log_nice_gen log_count_capped b mn mx o = log_nice b mn mx o.
+Proof. intros base b mn mx o g. split; [|split; [|split]].
+  - exact (lin_ticks_capped_eq base mn mx o g).
+  - exact (lin_nice_capped_eq base mn mx o g).
+  - exact (log_ticks_capped_eq b mn mx o).
+  - exact (log_nice_capped_eq b mn mx o). Qed.
+Print Assumptions C17_check_runs_the_model.
